@@ -32,7 +32,7 @@ package ipv6
 
 // C12 (neighbour discovery): a neighbour solicitation is answered only if the link address
 // cache says the target address (exactly bytes 8..24 of the message) is one of ours.
-//@ func (*endpoint).handleICMP props C07 C12 C13
+//@ func (*endpoint).handleICMP props C07 C12 C13 C06
 //@   requires epOK(e) && r != nil && vvOK(vv)
 //@   at_call CheckLocalAddress requires len(addr) == 16 && forall(k, 0, 16, byteat(addr, k) == old(vv.views[0])[8 + k]) && protocol == ProtocolNumber
 //@   at_call WritePacket requires implies(old(vv.views[0])[0] == uint8(header.ICMPv6NeighborSolicit), ghost(lastLocalCheck) != 0 && protocol == header.ICMPv6ProtocolNumber)
@@ -56,4 +56,23 @@ package ipv6
 
 //@ func (*endpoint).handleControl props C07
 //@   requires epOK(e) && vvOK(vv)
+//@   modifies everything()
+
+// C06 at the hand-over from the IPv6 endpoint to the link layer: the 40-byte header written in
+// front of the upper-layer bytes says version 6, a payload length equal to the bytes that follow,
+// the next header and hop limit asked for, and the route's local and remote address as source
+// and destination. (The upper-layer bytes must fit the 16-bit payload length; that is a
+// precondition here - it holds for the stack's own callers: UDP's write limit, echo replies no
+// longer than the request, TCP's MSS - and is not checked across the interface call.)
+//@ func (*endpoint).WritePacket props C06 C07
+//@   requires e != nil && r != nil && e.linkEP != nil
+//@   requires 0 <= hdr.usedIdx && hdr.usedIdx <= len(hdr.buf) && hdr.usedIdx >= header.IPv6MinimumSize && len(hdr.buf) <= 1 << 40 && 0 <= payload.size && payload.size <= 0xffff
+//@   requires len(hdr.buf) - hdr.usedIdx + payload.size <= 0xffff
+//@   requires len(r.LocalAddress) == 16 && len(r.RemoteAddress) == 16
+//@   at_call WritePacket requires protocol == ProtocolNumber && len(hdr.buf) - hdr.usedIdx >= 40
+//@   at_call WritePacket requires hdr.buf[hdr.usedIdx] >> 4 == 6
+//@   at_call WritePacket requires int(be16(hdr.buf, hdr.usedIdx + 4)) == len(hdr.buf) - hdr.usedIdx - 40 + payload.size
+//@   at_call WritePacket requires hdr.buf[hdr.usedIdx + 6] == uint8(caller(protocol)) && hdr.buf[hdr.usedIdx + 7] == ttl
+//@   at_call WritePacket requires forall(k, 0, 16, hdr.buf[hdr.usedIdx + 8 + k] == byteat(r.LocalAddress, k) && hdr.buf[hdr.usedIdx + 24 + k] == byteat(r.RemoteAddress, k))
+//@   at_call WritePacket requires payload.size == caller(payload).size && arr(payload.views) == arr(caller(payload).views)
 //@   modifies everything()
